@@ -210,8 +210,61 @@ def case(chk, i):
     return out
 
 
+VOUCH_CFG = dict(p_bitfield=0.05, bf_in_union=False, p_packed=0.0, p_aligned=0.0, p_pragma=0.0, p_field_align=0.0, p_fam=0.0, p_zero_len=0.0,
+                 p_union=0.0, p_anon=0.0, p_inline_named=0.0, depth=1, n_records=(4, 7), p_tagless_typedef=0.0, p_enum=0.0, allow_enum_bitfield=False)
+
+
+def vouch_case(chk, i):
+    """the user vouches (ParseCallbacks::blocklisted_type_implements_trait => Yes): containers derive through the blocklisted type again"""
+    from . import c08
+    rng = chk.rng("vouch", i)
+    model = G.Gen(rng, VOUCH_CFG).generate()
+    cands = [r for r in model.records if any(direct_container(o, {r.rust_name}) for o in model.records if o is not r)]
+    if not cands:
+        return None
+    b = rng.choice(cands)
+    d = chk.dir("v%d" % (i % 32))
+    hdr = write(os.path.join(d, "v%d.h" % i), model.header())
+    out_rs = os.path.join(d, "v%d.rs" % i)
+    methods = [["header", hdr], ["blocklist_type", b.rust_name], ["layout_tests", "false"]] + [[m, "true"] for m in (
+        "derive_default", "derive_hash", "derive_partialeq", "derive_eq", "derive_partialord", "derive_ord")]
+    name = "vouch-%d" % i
+    res = {}
+    for tag, vouch in (("no", []), ("yes", [b.rust_name])):
+        rc, r, se, _ = drv.drive({"jobs": [{"methods": methods, "callbacks": "record", "vouch": vouch, "callbacks_full": True, "out": out_rs}]}, d, "v" + tag, timeout=120, cpu=100)
+        if rc != 0 or not r or not r["results"][0].get("ok"):
+            return Verdict(INCONCLUSIVE, name, "driver failed: %s" % se[-200:])
+        inv = htypes.inventory(out_rs)
+        res[tag] = ({it["name"]: set(it.get("derives", [])) & NINE for it in inv["items"] if it["kind"] in ("struct", "union")},
+                    [l for l in r["results"][0]["callbacks"] if l.startswith("blocklisted_type_implements_trait")])
+    problems = []
+    memo = {id(b): {"float": False, "ptr": False, "big": False, "union": False, "enum": False, "fnptr": False}}
+    nchk = 0
+    for rr in model.records:
+        if rr is b or not direct_container(rr, {b.rust_name}):
+            continue
+        nchk += 1
+        no = res["no"][0].get(rr.rust_name)
+        yes = res["yes"][0].get(rr.rust_name)
+        if no is None or yes is None:
+            continue
+        if no:
+            problems.append("%s contains blocklisted %s; without vouching it derives %s" % (rr.rust_name, b.rust_name, sorted(no)))
+        want = c08.spec_derives(rr, memo)
+        if yes != want:
+            problems.append("%s contains blocklisted %s; the user vouches for every trait: derives %s, the rules give %s" % (
+                rr.rust_name, b.rust_name, sorted(yes), sorted(want)))
+    if not res["yes"][1]:
+        problems.append("blocklisted_type_implements_trait was never asked")
+    obs = {"vouch_cases": 1, "vouched_containers_checked": nchk, "vouch_callback_queries": len(res["yes"][1])}
+    if problems:
+        return Verdict(VIOLATED, name, "\n".join(problems[:8]), files={"header.h": model.header(), "blocklisted": b.rust_name}, obs=obs)
+    return Verdict(HELD, name, obs=obs, nontrivial=nchk >= 1, key=name)
+
+
 def run(chk):
     chk.map(lambda i: case(chk, i), range(chk.pick(40, 400)), budget_s=chk.pick(500, 3000))
+    chk.map(lambda i: vouch_case(chk, i), range(chk.pick(40, 300)), budget_s=chk.pick(200, 900))
     return chk.finish(
         rule="case = (generated C type graph, selection) where a selection blocklists (by type or item pattern) and/or makes opaque a random "
              "subset of the named records (and enums) that other records use as members, array elements, pointees; the harness supplies "
@@ -219,4 +272,6 @@ def run(chk):
              "Oracle: no second definition of a blocklisted name, use sites still name it, without the user's definition rustc misses exactly "
              "those names, sizes/alignments of ALL records and member offsets/values of unaffected records equal C (H-TYPES probe), opaque "
              "types expose only the blob (no fields, accessors, methods), direct containers of blocklisted types derive none of the nine traits.",
-        assumptions=["as C02", "vouching through ParseCallbacks::blocklisted_type_implements_trait is exercised in the thorough tier only via C08"])
+        assumptions=["as C02", "vouching (ParseCallbacks::blocklisted_type_implements_trait => Yes for every trait) is exercised through vf-driver on "
+                     "plain-data graphs: without vouching direct containers derive nothing, with it they derive what C08's specification gives "
+                     "when the blocklisted member is treated as supporting everything"])
